@@ -31,10 +31,39 @@ def specs(tier):
     return [(p, o, r) for p in parts for (o, r) in orders]
 
 
+def ref_window_after_negation(tabs, nrows, table, negated, new_col, partition_by, order_by, reverse, fns):
+    """reference for  extend({c: '-c'} or {new_col: '-c'})  followed by the windowed extend: the window reference on the table whose
+    column is negated first (the declared order is the order of the values the window step SEES)"""
+    from vf.sym import refsem
+    from vf.sym.cell import Cell
+
+    t2 = {k: dict(v) for k, v in tabs.items()}
+    neg = [Cell(c.null, -c.val, c.kind) for c in tabs[table][negated]]
+    t2[table][new_col or negated] = neg
+    return refsem.ref_window_ordered(t2, nrows, table, partition_by, order_by, reverse, fns)
+
+
 def build_jobs(tier, seed, kf_on):
     jobs = []
     ns = [1, 2, 3] if tier == "quick" else [1, 2, 3, 4]
     groups = [["cumsum", "row_number", "shift1"], ["cummax", "cummin", "lead1", "shift2"]]
+    # the window step directly after a plain extend that overwrites / creates the column it orders or partitions by ("in the declared order"
+    # means the order of the values that step receives, whatever the SQL generator merges)
+    ctx = [("o", None, [], ["o"], []), ("o", None, ["g"], ["o"], ["o"]), ("o", "o2", ["g"], ["o2"], []), ("p", None, ["g"], ["o", "p"], ["p"]), ("g", None, ["g"], ["o"], [])]
+    for negated, new_col, part, order, rev in ctx:
+        fl = ["cumsum", "row_number", "shift1"]
+        ops = {f"v_{f}": FNS[f][0] for f in fl}
+        src = f"{T}.extend({{{(new_col or negated)!r}: '-{negated}'}}).extend({ops!r}, partition_by={part!r}, order_by={order!r}, reverse={rev!r})"
+        ref = {"kind": "fn", "fn": "vf.checks.c27:ref_window_after_negation",
+               "args": ["w", negated, new_col, part, order, rev, [(f"v_{f}", FNS[f][1], (None if FNS[f][1] == "row_number" else "x"), FNS[f][2]) for f in fl]],
+               "label": "window reference on the negated column"}
+        keycols = [negated if c == new_col else c for c in part + order]
+        for n in ([2, 3] if tier == "quick" else [2, 3, 4]):
+            for bname, side in (("pandas", {"kind": "pandas", "src": src}), ("sqlite", {"kind": "sql", "src": src, "dialect": "sqlite"}),
+                                ("postgresql-model", {"kind": "sql", "src": src, "dialect": "postgresql"})):
+                jobs.append(simple.tv_job(f"after extend {new_col or negated}=-{negated}: part={part} order={order} rev={rev}:{bname}@{n}", SCHEMA, {"w": n}, side, ref, kf_on, tier,
+                                          assume=[("distinct", "w", keycols), ("nonnull", "w", [negated])], validate=(0 if bname.startswith("postgresql") else 1),
+                                          max_paths=4000 if tier == "quick" else 30000, wall_s=60 if tier == "quick" else 600))
     for part, order, rev in specs(tier):
         for fl in groups:
             ops = {f"v_{f}": FNS[f][0] for f in fl}
